@@ -102,7 +102,9 @@ def same(cell):
 def launch(cell):
     """the velocity the solver launches with is the one for the atmosphere's powder temperature (air temperature unless given)"""
     import py_ballisticcalc as pb
-    mod, v0, t0c, air_c, powder_c, on = cell
+    mod, v0, t0c, air_c, powder_c, on = cell[:6]
+    if len(cell) > 6:      # the preferred temperature unit in force while the objects are built and used
+        pb.PreferredUnits.temperature = pb.Unit[cell[6]]
     FPS, C = pb.Unit.FPS, pb.Unit.Celsius
     ammo = pb.Ammo(pb.DragModel(0.3, pb.TableG7), FPS(v0), C(t0c), temp_modifier=mod, use_powder_sensitivity=on)
     atmo = pb.Atmo(pb.Unit.Foot(0), pb.Unit.InHg(29.92), C(air_c), 0.0, C(powder_c) if powder_c is not None else None)
@@ -199,6 +201,7 @@ def plan(tier):
     sm = [[v, w] for v in v0s for w in ('v', 'T', 'both')]
     la = [list(c) for c in itertools.product([0.0, 0.015, -0.01], v0s, [15.0, 0.0], [15.0, -20.0, 35.0], [None, 15.0, 40.0, 0.0],
                                              [True, False])]
+    la += [c + [pu] for c in la[::4] for pu in ('Celsius', 'Kelvin')]
     eds = ['mv', 'pt', 'mod', 'off', 'recalib']
     ed = [[f, list(e)] for f in ('none', 'query', 'calib', 'fire') for d in (1, 2) for e in itertools.permutations(eds, d)]
     return [('calib', cal), ('same', sm), ('launch', la), ('edit', ed)]
